@@ -48,7 +48,9 @@ OBJ_REFS = ['verif_fixtures.CONST_A', 'verif_fixtures.CONST_LIST', 'verif_fixtur
             'verif_fixtures.Holder.Inner.deep', 'verif_fixtures.helper_function', 'verif_fixtures.PlainA', 'math.pi',
             'verif_fixtures.ZERO', 'verif_fixtures.NOTHING', 'verif_fixtures.EMPTY', 'verif_fixtures.FALSE',
             'verif_fixtures.EMPTY_TEXT']
-RES_PATHS = ['r1', 'dir.r2', 'dir.sub.r3', 'dir.r4']
+RES_PATHS = ['r1', 'dir.r2', 'dir.sub.r3', 'dir.r4',
+             # keys may contain any character but the delimiter - a closing brace too (the reference ends at the LAST one)
+             'dir.r2}x', 'r1}']
 IDS = [None, None, 'hero', 'id with space', -1, -77, 10 ** 6, 10 ** 6 + 5]
 WORLD_KEYS = ['w', 'worlds/w', 'worlds/lvl/w']
 KWNAMES = ['x', 'y', 'name']
